@@ -162,6 +162,12 @@ SHIPPED = [
     "/repo/tests/assets/configs/install_and_configure_apps.yaml",
 ]
 
+from vlib.fixtures import mini_action_index as _ix
+
+_IX_RM_DMB = _ix("switched", "node-application-remove", node_name="client_2", application_name="data-manipulation-bot")
+_IX_INST_DOS = _ix("switched", "node-application-install", application_name="dos-bot")
+_IX_RM_DOS = _ix("switched", "node-application-remove", application_name="dos-bot")
+
 HARNESSES = {
     "scheduled_contract": {
         "fn": scheduled_contract,
@@ -176,12 +182,15 @@ HARNESSES = {
             {"fixed": {"k": 1, "kind": "switched"}, "timeout": 280},
             {"fixed": {"k": 1, "kind": "routed"}, "timeout": 280},
         ]
-        + [{"fixed": {"k": 2, "kind": "switched", "a0": a, "reset_at": 2}, "timeout": 280} for a in (24, 37, 41, 39, 7, 44, 9, 22, 6)],
-        "thorough": [{"fixed": {"k": 2, "kind": kd, "a0": a}, "timeout": 1500} for kd in ("switched", "routed") for a in range(0, 54, 2)]
+        + [{"fixed": {"k": 2, "kind": "switched", "a0": a, "reset_at": 2}, "timeout": 280} for a in (24, 37, 41, 39, 7, 44, 9, 22, 6)]
+        # removing applications that share a (port, protocol) key with other software of the node, one after the other
+        + [{"fixed": {"k": 2, "kind": "switched", "a0": _IX_RM_DMB, "reset_at": 2}, "timeout": 280}]
+        + [{"fixed": {"k": 3, "kind": "switched", "a0": _IX_INST_DOS, "a1": _IX_RM_DOS, "reset_at": 3, "M": 4}, "timeout": 280}],
+        "thorough": [{"fixed": {"k": 2, "kind": kd, "a0": a}, "timeout": 1500} for kd in ("switched", "routed") for a in range(0, 62, 2)]
         + [{"fixed": {"k": 1, "kind": "", "scenario_file": f}, "timeout": 1500} for f in SHIPPED],
         "cover": ["steps_done", "reset"],
         "bounds": {
-            "quick": "k=1: every action x M in {1,2} x reset before/after, both topologies; k=2: first action in {file delete, folder create, shutdown, nic disable, service disable, app install, service fix, application fix, service restart}, second action any, M in 1..3",
+            "quick": "k=1: every action x M in {1,2} x reset before/after, both topologies; k=2: first action in {file delete, folder create, shutdown, nic disable, service disable, app install, service fix, application fix, service restart, removal of an application sharing its port key}, second action any, M in 1..3; k=3: install dos-bot, remove it, then any action",
             "thorough": "k=2 with every second action as first action on both topologies, M in 1..3, reset at 0/1/2; shipped scenario files with k=1 over their whole action map",
         },
     },
